@@ -482,7 +482,11 @@ func (m *StateMachine) beginRoundLive(
 	// not if we have a committed block.
 	curStep := tsi.GetStepFromVoteSummary(initVRV.VoteSummary)
 	switch curStep {
-	case tsi.StepAwaitingProposal:
+	case tsi.StepAwaitingProposal, tsi.StepPrevoteDelay:
+		// In prevote delay, majority prevote power is present without consensus on one block;
+		// like the live transition into that step, we still consider the proposed blocks we have,
+		// and the prevote delay timer is started below.
+		//
 		// Only send the filtered proposed blocks.
 		if okPHs := m.rejectMismatchedProposedHeaders(initVRV.ProposedHeaders, rlc); len(okPHs) > 0 {
 			req := tsi.ConsiderProposedBlocksRequest{
@@ -522,6 +526,10 @@ func (m *StateMachine) beginRoundLive(
 			return false
 		}
 
+	case tsi.StepPrecommitDelay:
+		// Majority precommit power is present without consensus on one block.
+		// Nothing to request; the precommit delay timer is started below.
+
 	case tsi.StepCommitWait:
 		committingHash := initVRV.VoteSummary.MostVotedPrecommitHash
 		if committingHash == "" {
@@ -559,6 +567,10 @@ func (m *StateMachine) startInitialTimer(ctx context.Context, rlc *tsi.RoundLife
 		rlc.StepTimer, rlc.CancelTimer = m.rt.ProposalTimer(ctx, rlc.H, rlc.R)
 	case tsi.StepAwaitingPrevotes, tsi.StepAwaitingPrecommits:
 		// No timer needed in these starting steps.
+	case tsi.StepPrevoteDelay:
+		rlc.StepTimer, rlc.CancelTimer = m.rt.PrevoteDelayTimer(ctx, rlc.H, rlc.R)
+	case tsi.StepPrecommitDelay:
+		rlc.StepTimer, rlc.CancelTimer = m.rt.PrecommitDelayTimer(ctx, rlc.H, rlc.R)
 	case tsi.StepCommitWait:
 		rlc.StepTimer, rlc.CancelTimer = m.rt.CommitWaitTimer(ctx, rlc.H, rlc.R)
 	default:
